@@ -102,6 +102,22 @@ type (
 	}
 )
 
+// Validate validates the MQTTProxy spec: everything newBroker would panic on.
+func (spec *Spec) Validate() error {
+	if spec.UseTLS {
+		if _, err := spec.tlsConfig(); err != nil {
+			return err
+		}
+	}
+	for i, rule := range spec.Rules {
+		if rule == nil || rule.When == nil {
+			return fmt.Errorf("rules[%d]: when is required", i)
+		}
+	}
+	_, err := getPipelineMap(spec)
+	return err
+}
+
 func (spec *Spec) tlsConfig() (*tls.Config, error) {
 	var certificates []tls.Certificate
 
